@@ -46,8 +46,14 @@ def field_selector(src, m, tag="fsel"):
         i = src.draw(f"{tag}.i", 0, nf - 1)
         return m.fields[i], i, f"name {m.fields[i]!r}"
     if form in (2, 3):
-        idx = src.subset(f"{tag}.set", nf, min_size=1)
+        idx = list(src.subset(f"{tag}.set", nf, min_size=1))
+        if src.flag(f"{tag}.repeat", 4):
+            # weakly ascending: one entry listed twice (e.g. [1, 1, 3])
+            j = src.draw(f"{tag}.repeat.at", 0, len(idx) - 1)
+            idx.insert(j, idx[j])
         if form == 2:
+            if src.flag(f"{tag}.ndarray", 3):
+                return np.array(idx), list(idx), f"index array {idx}"
             return list(idx), list(idx), f"index list {idx}"
         return [m.fields[i] for i in idx], list(idx), f"name list {[m.fields[i] for i in idx]}"
     # forward slice: start/stop/step in {None, in-range, past-the-end}
@@ -310,6 +316,11 @@ def history_materialise(ctx, m, warm, name="plt00100", rate=6, tag="hist"):
     Returns (path_argument, cwd, absolute_path, mode).  Pools are NOT reset in between: a pool the tool
     keeps alive is supposed to be met again."""
     src = ctx.src
+    if name == "plt00100" and src.flag(f"{tag}.oddname", 8):
+        # legal but unusual path spellings: glob / shell metacharacters, blanks, a nested run directory
+        name = src.choice(f"{tag}.oddname.v", ["plt[00100]", "run[2]/plt00100", "plt 00100", "Re=1e3 phi=0.4/plt00100",
+                                               "plt00100.old.0001", "plt*", "case(1)/plt?0100", "pl\u00e9/plt00100"])
+        ctx.probe("odd_path_name")
     mode = "none"
     if src.flag(f"{tag}.on", rate):
         mode = src.choice(f"{tag}.mode", ["same-path", "rel-cwd"])
